@@ -295,6 +295,11 @@ impl Watcher {
                     "The appointment contained invalid data {}",
                     appointment.locator()
                 );
+                // An older version may still be held (triggered, but the node neither took nor refused its penalty). The
+                // user has been charged (or given back) the difference to this version, so the old one cannot stay behind.
+                if self.dbm.lock().unwrap().appointment_exists(uuid) {
+                    self.gatekeeper.delete_appointments(vec![uuid], false);
+                }
                 TriggeredAppointment::Invalid
             }
         }
